@@ -125,7 +125,10 @@ SNIPPETS = {
                           'class Mid(Base):\n    def over(self): pass\n    def _priv(self): pass\nclass Leaf(Mid, dict):\n    "doc"\n    def leaf(self): pass\nclass Solo: pass\n',
     'epytext_repeated_headings': 'def f():\n    """\n    Summary.\n\n    Example\n    =======\n\n    a\n\n    Example\n    =======\n\n    b\n\n    Example\n    =======\n\n    c\n\n    Example\n    =======\n\n    d\n    """\n'
                                  'class K:\n    """\n    Notes\n    =====\n\n    x\n\n    Notes\n    =====\n\n    y\n\n    Notes\n    =====\n\n    z\n    """\n',
+    'epytext_numbered_headings': 'def f():\n    """\n    Summary.\n\n    Step\n    ====\n\n    a\n\n    Step 2\n    ======\n\n    b\n\n    Step\n    ====\n\n    c\n\n    Step 1\n    ======\n\n    d\n\n    Step\n    ====\n\n    e\n    """\n',
     'field_without_colon': 'def f(name):\n    """\n    Summary.\n\n    @note ' + 'word ' * 40 + 'and the colon was forgotten\n    @param name ' + 'lorem ipsum ' * 25 + '\n    """\n',
+    'rst_lineless_error': '"""\nModule with `one`__ and `two`__ anonymous references but a single target.\n\n__ https://example.org/one\n"""\n'
+                          'def f():\n    """\n    An unreferenced target.\n\n    __ https://example.org/lonely\n    """\nclass K:\n    """`a`__ `b`__ `c`__\n\n    __ https://example.org/x\n    """\n',
     'constructors_odd': 'from typing import Self\nclass K:\n    def __init__(): pass\nclass N:\n    def __new__(): pass\nclass P:\n    @classmethod\n    def origin() -> "P": pass\n'
                         '    @classmethod\n    def other() -> Self: pass\n    @staticmethod\n    def st() -> "P": pass\n    @classmethod\n    def star(*a, **k) -> "P": pass\n    @classmethod\n    def kwonly(*, a) -> "P": pass\n'
                         'class Q:\n    def __init__(*args): "doc"\n    def __new__(**kw): "doc"\n    @classmethod\n    def make(cls, /) -> "Q": "doc"\n',
@@ -237,6 +240,9 @@ def _cases(tier, seed):
         yield {'snippet': name, 'docformat': FORMATS[i % 5]}
     for name in TREES:
         yield {'tree': name, 'docformat': 'epytext'}
+    # docutils messages that carry no line number, under each of the formats that go through docutils
+    for fmt in ('restructuredtext', 'google', 'numpy'):
+        yield {'snippet': 'rst_lineless_error', 'docformat': fmt}
     # the other themes render the same objects through their own templates
     for theme in ('classic', 'readthedocs'):
         for name in ('inheritance_tables', 'class_bases', 'property_forms', 'overloads', 'zope', 'constants', 'nested_defs'):
@@ -244,6 +250,7 @@ def _cases(tier, seed):
         yield {'tree': 'import_cycle_packages', 'docformat': 'epytext', 'argv': ['--theme', theme]}
         yield {'tree': 'kitchen', 'docformat': 'epytext', 'argv': ['--theme', theme, '--process-types', '--sidebar-expand-depth', '3']}
     yield {'tree': 'kitchen', 'docformat': 'restructuredtext'}
+    yield {'tree': 'kitchen', 'docformat': 'epytext', 'argv': ['--privacy=HIDDEN:ks.cyc_b', '--privacy=HIDDEN:ks.sub', '--privacy=HIDDEN:solo', '--privacy=HIDDEN:ks.api.Canvas', '--privacy=HIDDEN:ks.api.Sub']}
     yield {'tree': 'kitchen', 'docformat': 'numpy', 'argv': ['--privacy=HIDDEN:ks._impl._Hidden', '--privacy=PRIVATE:ks.api.*']}
     rnd = random.Random(seed)
     names = list(SNIPPETS)
